@@ -103,4 +103,45 @@ def reportedAllSnap (e : Expr) (m : LinkMode) (n : Nat) (scan : Scan) : State â†
   | st, f :: fs =>
     reportedSnap e m n scan st f :: reportedAllSnap e m n scan (stateAfterSnap e m n scan st f) fs
 
+/-! ### from the wire to the socket
+
+Linux removes an outer VLAN tag from a received frame before any packet socket sees it
+(`__netif_receive_skb_core` â†’ `skb_vlan_untag`): the socket filter runs on the frame *without* the tag, the ring
+holds it without the tag, and the tag travels beside it (`tp_vlan_tci`, `TP_STATUS_VLAN_VALID`; gopacket hands it to
+the reader as `afpacket.AncillaryVLAN`).  A tagged frame too short to hold the tag and the inner ethertype is
+dropped there.  On a device without a link-layer header (tun, vpn mode) there is no such step. -/
+
+inductive Rx where
+  | dropped                                   -- never reaches a packet socket
+  | frame (tagged : Bool) (f : Bytes)         -- what the socket's filter runs on, and whether a tag was removed
+  deriving Repr, DecidableEq
+
+def kernelRx (m : LinkMode) (f : Bytes) : Rx :=
+  match m with
+  | .rawIPv4 => .frame false f
+  | .ethernet =>
+    if u16 f 12 = some 0x8100 âˆ¨ u16 f 12 = some 0x88a8 then
+      if f.length < 20 then .dropped else .frame true (f.take 12 ++ f.drop 16)
+    else .frame false f
+
+/-- one frame on the wire, end to end: kernel receive path, the installed filter, the cut to the capture length,
+    `afpacket.Source.ReadPacketData` (which skips frames that carried a VLAN tag iff `dropsTagged`), the processor -/
+def reportedWire (dropsTagged : Bool) (e : Expr) (m : LinkMode) (n : Nat) (scan : Scan) (st : State) (f : Bytes) :
+    Option Record :=
+  match kernelRx m f with
+  | .dropped => none
+  | .frame tagged g => if tagged && dropsTagged then none else reportedSnap e m n scan st g
+
+def stateAfterWire (dropsTagged : Bool) (e : Expr) (m : LinkMode) (n : Nat) (scan : Scan) (st : State) (f : Bytes) : State :=
+  match kernelRx m f with
+  | .dropped => st
+  | .frame tagged g => if tagged && dropsTagged then st else stateAfterSnap e m n scan st g
+
+def reportedAllWire (dropsTagged : Bool) (e : Expr) (m : LinkMode) (n : Nat) (scan : Scan) :
+    State â†’ List Bytes â†’ List (Option Record)
+  | _, [] => []
+  | st, f :: fs =>
+    reportedWire dropsTagged e m n scan st f ::
+      reportedAllWire dropsTagged e m n scan (stateAfterWire dropsTagged e m n scan st f) fs
+
 end SxVerif.Wiring
